@@ -44,7 +44,8 @@ func init() {
 		},
 		Required: []string{"blocks_checked", "ops_success", "ops_failed", "unstake_slots_created", "unstake_paid",
 			"unstake_cancelled", "unbond_created", "unbond_expired", "terms_passed", "claims_paid", "prep_registered",
-			"prep_unregistered", "slot_max_hit", "boundary_stake_max", "boundary_delegate_all", "slashes", "slots_sharing_expire_height"},
+			"prep_unregistered", "slot_max_hit", "boundary_stake_max", "boundary_delegate_all", "slashes", "slots_sharing_expire_height",
+			"rollback_resets_after_timer_delete", "rollback_timers_compared"},
 		Assumptions: []string{
 			"icon/icsim is a faithful driver of icon/iiss (it is goloop's own simulator; its world context implements transfer/deposit/withdraw/burn on the real world state)",
 			"operation arguments pass goloop's own argument validators (icstate.NewDelegations/NewBonds/NewBonderList) before being submitted, as the chain SCORE does",
@@ -369,6 +370,9 @@ func run(c *ev.Ctx) {
 	icon.Quiet()
 	nBlocks := c.Pick(150, 240)
 	c.Cases(func(ci int, r *rand.Rand) {
+		for k := 0; k < 200; k++ {
+			rollbackPhase(c, r)
+		}
 		p := icon.RandomParams(r)
 		c.Note("params %+v", p)
 		w, err := icon.NewWorld(p)
